@@ -191,6 +191,9 @@ def handleCp (j : Json) : R Json := do
   let out := genes.map fun g => findHmmerHitsGene (tableI cuts 0) eq g
   return jObj [
     ("model", jArr (out.map fun o => match o with | some l => uids l | none => Json.null)),
+    ("spec", jArr (genes.map fun g => uids (specFindHmmerHits (tableI cuts 0) eq g))),
+    ("survivors", jArr (genes.map fun g =>
+      uids (specFilterB eq (g.filter fun h => decide (tableI cuts 0 h.prof < h.sc))))),
     ("ties", jArr (genes.map fun g => b (hasTie g))),
     ("nontrivial", b ((genes.zip out).any fun (g, o) => match o with | some l => l.length < g.length | none => false))]
 
@@ -203,12 +206,26 @@ def handleRunHmmer (j : Json) : R Json := do
   let minScore ← intF j "min"
   let maxEv ← intF j "maxev"
   let genes ← listOf (listOf rawHmmOfJson) (← fld j "genes")
-  let out := genes.map fun g => runHmmerGene cut minScore maxEv g
+  let filt := boolFD j "filter" true
+  let out := genes.map fun g => runHmmerGene cut minScore maxEv g filt
   return jObj [
     ("model", jArr (out.map fun o => match o with
       | .ok l => jObj [("ok", jArr (l.map hhitToJson))]
       | .error e => jObj [("err", Json.str (herr e))])),
     ("nontrivial", b ((genes.zip out).any fun (g, o) => match o with | .ok l => l.length < g.length | _ => false))]
+
+def handleRefineRecord (j : Json) : R Json := do
+  let env ← envOfJson j
+  let nb ← boolF j "nb"
+  let raw ← listOf (fun r => do return ((← asInt (← idx r 0)), (← hitOfJson (← idx r 1)))) (← fld j "raw")
+  let n ← natF j "ngenes"
+  let rec_ := refineRecord env nb raw
+  return jObj [
+    ("model", jArr ((List.range n).map fun (g : Nat) => hitsToJson (lookupGene rec_ (g : Int)))),
+    ("keys", jArr (rec_.map fun e => toJson e.1)),
+    ("alone", jArr ((List.range n).map fun (g : Nat) =>
+      hitsToJson (refine env nb ((raw.filter fun r => r.1 == (g : Int)).map (·.2))))),
+    ("nontrivial", b (rec_.length > 1))]
 
 def handleDomains (j : Json) : R Json := do
   let env ← envOfJson j
@@ -245,6 +262,7 @@ def handle (j : Json) : R Json := do
   | "multiple" => handleMultiple j
   | "equiv" => handleEquiv j
   | "cp" => handleCp j
+  | "refinerec" => handleRefineRecord j
   | "runhmmer" => handleRunHmmer j
   | "domains" => handleDomains j
   | "subtypes" => handleSubtypes j
